@@ -3,6 +3,7 @@ package main
 // Calls: contracts, inlining, builtins, external models, abstraction by havoc.
 
 import (
+	"sort"
 	"fmt"
 	"go/token"
 	"go/types"
@@ -112,8 +113,7 @@ func (ex *Exec) inStack(fr *Frame, fn *ssa.Function) bool {
 
 func (ex *Exec) callFunc(fr *Frame, st *State, fn *ssa.Function, bindings []Value, args []Value, in ssa.Instruction, fname string) Value {
 	callee := shortName(fn.String())
-	fr.callOrd[callee]++
-	ord := fr.callOrd[callee]
+	ord := fr.nextOrd(callee, in)
 	var res Value
 	sig := fn.Signature
 	c := ex.eng.contractFor(fn)
@@ -574,8 +574,7 @@ func (ex *Exec) invoke(fr *Frame, st *State, c *ssa.CallCommon, recv Value, args
 	sig := c.Signature()
 	mname := c.Method.FullName()
 	callee := shortName(mname)
-	fr.callOrd[callee]++
-	ord := fr.callOrd[callee]
+	ord := fr.nextOrd(callee, in)
 	defer ex.pointAsserts(fr, st, callee, ord, fname, in)
 	all := append([]Value{recv}, args...)
 	if ic := ex.eng.contractForInvoke(c); ic != nil {
@@ -964,4 +963,64 @@ func (ex *Exec) terminationAtCall(fr *Frame, st *State, c *FuncContract, env *En
 		return
 	}
 	ex.prove(fname, st, "decreases", "rec:"+site, And(Lt(m, m0), Ge(m0, IntLit(0))), "termination of the recursion: the measure "+c.Decreases.Text+" is non-negative and strictly smaller at the recursive call", pos)
+}
+
+// nextOrd numbers the calls of one callee made by a function body in source order (the order in which the symbolic
+// execution meets them differs: the exit block of a loop or the else branch of a conditional may come first). Calls
+// that cannot be placed (no instruction, callee reached through a function value) fall back to a counter that starts
+// after the placed ones.
+func (fr *Frame) nextOrd(callee string, in ssa.Instruction) int {
+	if fr.srcOrd == nil {
+		fr.srcOrd = map[ssa.Instruction]int{}
+		fr.srcCnt = map[string]int{}
+		if fr.fn != nil {
+			by := map[string][]ssa.Instruction{}
+			for _, b := range fr.fn.Blocks {
+				for _, i := range b.Instrs {
+					ci, ok := i.(ssa.CallInstruction)
+					if !ok {
+						continue
+					}
+					c := ci.Common()
+					name := ""
+					if c.IsInvoke() {
+						name = shortName(c.Method.FullName())
+					} else if f := c.StaticCallee(); f != nil {
+						name = shortName(f.String())
+					}
+					if name != "" {
+						by[name] = append(by[name], i)
+					}
+				}
+			}
+			for name, l := range by {
+				sort.SliceStable(l, func(a, b int) bool {
+					pa, pb := l[a].Pos(), l[b].Pos()
+					return pa.IsValid() && pb.IsValid() && pa < pb
+				})
+				for k, i := range l {
+					fr.srcOrd[i] = k + 1
+				}
+				fr.srcCnt[name] = len(l)
+			}
+		}
+	}
+	if in != nil {
+		if o, ok := fr.srcOrd[in]; ok {
+			if ci, ok := in.(ssa.CallInstruction); ok {
+				c := ci.Common()
+				name := ""
+				if c.IsInvoke() {
+					name = shortName(c.Method.FullName())
+				} else if f := c.StaticCallee(); f != nil {
+					name = shortName(f.String())
+				}
+				if name == callee {
+					return o
+				}
+			}
+		}
+	}
+	fr.callOrd[callee]++
+	return fr.srcCnt[callee] + fr.callOrd[callee]
 }
